@@ -878,3 +878,269 @@ Section Concat.
     intro H. apply check_nfa_inv in H. destruct H as [-> _]. apply concat_pre_lang.
   Qed.
 End Concat.
+
+(* ------------------------------------------------------------------ *)
+(* star, option, reverse: original names plus one fresh state *)
+Lemma edge_assoc A x a y :
+  n_edge A x a y <-> exists r, assoc x (n_trans A) = Some r /\ In y (xtg r a).
+Proof.
+  unfold n_edge, n_targets, xtg. destruct (assoc x (n_trans A)) as [r|]; split.
+  - intro H. exists r. auto.
+  - intros [r' [E H]]. inversion E; subst. exact H.
+  - intros [].
+  - intros [r' [E _]]. discriminate.
+Qed.
+
+Lemma idn_inj (l : list nat) : inj_on idn l.
+Proof. intros x y _ _ E. exact E. Qed.
+
+Section Fresh.
+  Variable A : nfa.
+  Hypothesis Hv : valid_nfa A = true.
+  Let n := fresh (n_states A).
+  Let xs := n_states A ++ [n].
+
+  Lemma fr_notin q : In q (n_states A) -> q <> n.
+  Proof. intros Hq E. subst q. apply (fresh_notin (n_states A)). exact Hq. Qed.
+
+  Lemma fr_neqb q : In q (n_states A) -> Nat.eqb q n = false.
+  Proof. intro Hq. apply Nat.eqb_neq. apply fr_notin. exact Hq. Qed.
+
+  Lemma fr_NoDup : NoDup xs.
+  Proof.
+    destruct (ops_valid_parts A Hv) as (Hn & _). unfold xs.
+    apply NoDup_app_intro; [exact Hn|constructor; [intros []|constructor]|].
+    intros x Hx [<-|[]]. apply (fresh_notin (n_states A)). exact Hx.
+  Qed.
+
+  Lemma fr_in q : In q (n_states A) -> In q xs.
+  Proof. intro H. unfold xs. apply in_or_app. left. exact H. Qed.
+  Lemma fr_in_n : In n xs.
+  Proof. unfold xs. apply in_or_app. right. left. reflexivity. Qed.
+  Lemma fr_inv x : In x xs -> In x (n_states A) \/ x = n.
+  Proof. unfold xs. intro H. apply in_app_or in H. destruct H as [H|[H|[]]]; auto. Qed.
+
+  Lemma fr_init : In (n_init A) (n_states A).
+  Proof. destruct (ops_valid_parts A Hv) as (_ & _ & _ & _ & Hi & _). exact Hi. Qed.
+  Lemma fr_finals : incl (n_finals A) (n_states A).
+  Proof. destruct (ops_valid_parts A Hv) as (_ & _ & _ & _ & _ & _ & Hf). exact Hf. Qed.
+
+  Lemma fr_fin_incl : incl (n_finals A ++ [n]) xs.
+  Proof.
+    intros z Hz. apply in_app_or in Hz. destruct Hz as [Hz|[<-|[]]]; [apply fr_in; apply fr_finals; exact Hz|apply fr_in_n].
+  Qed.
+
+  Lemma assoc_rows_ok x r a l : assoc x (n_trans A) = Some r -> In (a, l) r ->
+    osym_ok (n_syms A) a = true /\ incl l xs.
+  Proof.
+    intros E Hal. destruct (ops_valid_parts A Hv) as (_ & _ & _ & Hr & _). apply assoc_In in E.
+    destruct (Hr _ _ E _ _ Hal) as [Hs Hi]. split; [exact Hs|]. intros z Hz. apply fr_in. apply Hi. exact Hz.
+  Qed.
+
+  (* ---------------- option ---------------- *)
+  Let EO := xedge (option_rowof A n).
+
+  Lemma option_edge_n a y : EO n a y <-> a = None /\ y = n_init A.
+  Proof.
+    unfold EO, xedge, option_rowof. rewrite Nat.eqb_refl. split.
+    - intros [r [Er Hy]]. inversion Er; subst r. unfold xtg in Hy. destruct a as [s|]; simpl in Hy; [destruct Hy|].
+      destruct Hy as [Hy|[]]. auto.
+    - intros [-> ->]. eexists. split; [reflexivity|]. unfold xtg. simpl. left. reflexivity.
+  Qed.
+
+  Lemma option_edge q a y : In q (n_states A) -> (EO q a y <-> n_edge A q a y).
+  Proof.
+    intro Hq. unfold EO, xedge, option_rowof. rewrite (fr_neqb q Hq). rewrite edge_assoc. tauto.
+  Qed.
+
+  Lemma option_path q w y : In q (n_states A) -> (gpath EO q w y <-> nfa_path A q w y).
+  Proof.
+    intro Hq. rewrite nfa_path_gpath. split; intro H.
+    - destruct (sim_bwd (n_edge A) EO idn (fun x => In x (n_states A))) with (y0 := q) (w := w) (y := y) (x := q)
+        as [q' [E [_ Hp]]]; auto.
+      + intros x a x' Hx He. split; [eapply edge_in_states; eassumption|]. apply option_edge; assumption.
+      + intros x a y' Hx He. exists y'. split; [reflexivity|]. apply option_edge in He; assumption.
+      + unfold idn in E. subst. exact Hp.
+    - apply (sim_fwd (n_edge A) EO idn (fun x => In x (n_states A))) in H; [apply H| |exact Hq].
+      intros x a x' Hx He. split; [eapply edge_in_states; eassumption|]. apply option_edge; assumption.
+  Qed.
+
+  Lemma option_rows_ok : rows_ok xs (n_syms A) (option_rowof A n).
+  Proof.
+    intros x r Hx Er a l Hal. unfold option_rowof in Er. destruct (Nat.eqb x n).
+    - inversion Er; subst r. destruct Hal as [Hal|[]]. inversion Hal; subst. split; [reflexivity|].
+      intros z [<-|[]]. apply fr_in. apply fr_init.
+    - eapply assoc_rows_ok; eassumption.
+  Qed.
+
+  Lemma option_pre_valid : valid_nfa (option_pre A) = true.
+  Proof.
+    unfold option_pre. apply asm_valid.
+    - apply idn_inj.
+    - apply option_rows_ok.
+    - apply fr_in_n.
+    - apply fr_fin_incl.
+    - apply fr_NoDup.
+    - destruct (ops_valid_parts A Hv) as (_ & Hs & _). exact Hs.
+    - left. unfold option_rowof. fold n. rewrite Nat.eqb_refl. discriminate.
+  Qed.
+
+  Lemma option_pre_lang : L_nfa (option_pre A) =L l_opt (L_nfa A).
+  Proof.
+    intro w. unfold option_pre. rewrite asm_lang.
+    2: apply idn_inj. 2: apply option_rows_ok. 2: apply fr_in_n. 2: apply fr_fin_incl.
+    fold n. fold EO. unfold l_opt, L_nfa. split.
+    - intros [y [Hp Hy]]. inversion Hp as [x|x y1 z w' He Hp'|x a y1 z w' He Hp']; subst.
+      + left. reflexivity.
+      + apply option_edge_n in He. destruct He as [_ ->]. right.
+        apply option_path in Hp'; [|apply fr_init]. exists y. split; [exact Hp'|].
+        apply in_app_or in Hy. destruct Hy as [Hy|[Hy|[]]]; [exact Hy|].
+        exfalso. apply (fr_notin y); [|auto]. eapply path_in_states; [exact Hv|apply fr_init|exact Hp'].
+      + apply option_edge_n in He. destruct He as [He _]. discriminate.
+    - intros [->|[q [Hp Hq]]].
+      + exists n. split; [apply gp_refl|]. apply in_or_app. right. left. reflexivity.
+      + exists q. split; [|apply in_or_app; left; exact Hq].
+        eapply gp_eps; [apply option_edge_n; auto|]. apply option_path; [apply fr_init|exact Hp].
+  Qed.
+
+  (* ---------------- star ---------------- *)
+  Let ES := xedge (star_rowof A n).
+
+  Lemma star_edge_n a y : ES n a y <-> a = None /\ y = n_init A.
+  Proof.
+    unfold ES, xedge, star_rowof. rewrite Nat.eqb_refl. split.
+    - intros [r [Er Hy]]. inversion Er; subst r. unfold xtg in Hy. destruct a as [s|]; simpl in Hy; [destruct Hy|].
+      destruct Hy as [Hy|[]]. auto.
+    - intros [-> ->]. eexists. split; [reflexivity|]. unfold xtg. simpl. left. reflexivity.
+  Qed.
+
+  Lemma star_edge q a y : In q (n_states A) ->
+    (ES q a y <-> n_edge A q a y \/ (a = None /\ In q (n_finals A) /\ y = n_init A)).
+  Proof.
+    intro Hq. unfold ES, xedge, star_rowof. rewrite (fr_neqb q Hq).
+    destruct (memb q (n_finals A)) eqn:Ef.
+    - apply memb_In in Ef. unfold n_edge. rewrite n_targets_arow. split.
+      + intros [r [Er Hy]]. inversion Er; subst r. apply tab_tg in Hy. destruct Hy as [_ Hy].
+        apply in_app_or in Hy. destruct Hy as [Hy|Hy]; [left; exact Hy|].
+        right. destruct a as [s|]; [destruct Hy|]. destruct Hy as [Hy|[]]. auto.
+      + intros [Hy|[-> [_ ->]]]; (eexists; split; [reflexivity|]); apply tab_tg.
+        * split; [apply in_or_app; left; eapply xtg_key; exact Hy|]. apply in_or_app. left. exact Hy.
+        * split; [apply in_or_app; right; left; reflexivity|]. apply in_or_app. right. left. reflexivity.
+    - apply memb_false in Ef. rewrite edge_assoc. split; [tauto|]. intros [H|[_ [Hf _]]]; [exact H|contradiction].
+  Qed.
+
+  Lemma star_step_in q a y : In q (n_states A) -> ES q a y -> In y (n_states A).
+  Proof.
+    intros Hq He. apply star_edge in He; [|exact Hq].
+    destruct He as [He|[_ [_ ->]]]; [eapply edge_in_states; eassumption|apply fr_init].
+  Qed.
+
+  Lemma star_path_in q w y : In q (n_states A) -> gpath ES q w y -> In y (n_states A).
+  Proof.
+    intros Hq H. induction H as [x|x y1 z w He Hp IH|x a y1 z w He Hp IH]; [exact Hq| |];
+      apply IH; eapply star_step_in; eassumption.
+  Qed.
+
+  Lemma star_path_sound p w f : gpath ES p w f -> In p (n_states A) -> In f (n_finals A) ->
+    exists u v, w = u ++ v /\ (exists f', nfa_path A p u f' /\ In f' (n_finals A)) /\ l_star (L_nfa A) v.
+  Proof.
+    intro H. induction H as [x|x y1 z w He Hp IH|x a y1 z w He Hp IH]; intros Hx Hf.
+    - exists [], []. split; [reflexivity|]. split; [exists x; split; [apply np_refl|exact Hf]|apply star_nil].
+    - pose proof (star_step_in _ _ _ Hx He) as Hy1.
+      destruct (IH Hy1 Hf) as [u [v [-> [[f' [Hu Hf']] Hs]]]].
+      apply star_edge in He; [|exact Hx]. destruct He as [He|[_ [Hxf ->]]].
+      + exists u, v. split; [reflexivity|]. split; [|exact Hs]. exists f'. split; [eapply np_eps; eassumption|exact Hf'].
+      + exists [], (u ++ v). split; [reflexivity|]. split; [exists x; split; [apply np_refl|exact Hxf]|].
+        apply star_app; [|exact Hs]. exists f'. auto.
+    - pose proof (star_step_in _ _ _ Hx He) as Hy1.
+      destruct (IH Hy1 Hf) as [u [v [-> [[f' [Hu Hf']] Hs]]]].
+      apply star_edge in He; [|exact Hx]. destruct He as [He|[Ha _]]; [|discriminate].
+      exists (a :: u), v. split; [reflexivity|]. split; [|exact Hs]. exists f'. split; [eapply np_sym; eassumption|exact Hf'].
+  Qed.
+
+  Lemma star_embed p u f : In p (n_states A) -> nfa_path A p u f -> gpath ES p u f.
+  Proof.
+    intros Hp H. rewrite nfa_path_gpath in H.
+    apply (sim_fwd (n_edge A) ES idn (fun x => In x (n_states A))) in H; [apply H| |exact Hp].
+    intros x a x' Hx He. split; [eapply edge_in_states; eassumption|]. apply star_edge; [exact Hx|left; exact He].
+  Qed.
+
+  Lemma star_complete w : l_star (L_nfa A) w ->
+    w = [] \/ exists f, In f (n_finals A) /\ gpath ES (n_init A) w f.
+  Proof.
+    intro H. induction H as [|u v [f [Hu Hf]] Hs IH]; [left; reflexivity|]. right.
+    apply star_embed in Hu; [|apply fr_init].
+    destruct IH as [->|[f' [Hf' Hpv]]].
+    - rewrite app_nil_r. exists f. auto.
+    - exists f'. split; [exact Hf'|]. eapply gpath_app; [exact Hu|].
+      eapply gp_eps; [|exact Hpv]. apply star_edge; [apply fr_finals; exact Hf|]. right. auto.
+  Qed.
+
+  Lemma star_rows_ok : rows_ok xs (n_syms A) (star_rowof A n).
+  Proof.
+    intros x r Hx Er a l Hal. unfold star_rowof in Er. destruct (Nat.eqb x n).
+    - inversion Er; subst r. destruct Hal as [Hal|[]]. inversion Hal; subst. split; [reflexivity|].
+      intros z [<-|[]]. apply fr_in. apply fr_init.
+    - destruct (memb x (n_finals A)); [|eapply assoc_rows_ok; eassumption].
+      inversion Er; subst r. apply tab_entry in Hal. destruct Hal as [Hk ->]. split.
+      + apply in_app_or in Hk. destruct Hk as [Hk|[<-|[]]]; [|reflexivity].
+        apply in_map_iff in Hk. destruct Hk as [[a' l0] [Ea Hl0]]. simpl in Ea. subst a'.
+        eapply arow_entry; eassumption.
+      + intros z Hz. apply in_app_or in Hz. destruct Hz as [Hz|Hz].
+        * apply fr_in. destruct (xtg_In _ _ _ Hz) as [l0 [Hl0 Hzl]].
+          destruct (arow_entry A Hv _ _ _ Hl0) as [_ Hi]. apply Hi. exact Hzl.
+        * destruct a as [s|]; [destruct Hz|]. destruct Hz as [<-|[]]. apply fr_in. apply fr_init.
+  Qed.
+
+  Lemma star_pre_valid : valid_nfa (star_pre A) = true.
+  Proof.
+    unfold star_pre. apply asm_valid.
+    - apply idn_inj.
+    - apply star_rows_ok.
+    - apply fr_in_n.
+    - apply fr_fin_incl.
+    - apply fr_NoDup.
+    - destruct (ops_valid_parts A Hv) as (_ & Hs & _). exact Hs.
+    - left. unfold star_rowof. fold n. rewrite Nat.eqb_refl. discriminate.
+  Qed.
+
+  Lemma star_pre_lang : L_nfa (star_pre A) =L l_star (L_nfa A).
+  Proof.
+    intro w. unfold star_pre. rewrite asm_lang.
+    2: apply idn_inj. 2: apply star_rows_ok. 2: apply fr_in_n. 2: apply fr_fin_incl.
+    fold n. fold ES. split.
+    - intros [y [Hp Hy]]. inversion Hp as [x|x y1 z w' He Hp'|x a y1 z w' He Hp']; subst.
+      + apply star_nil.
+      + apply star_edge_n in He. destruct He as [_ ->].
+        assert (Hys : In y (n_states A)) by (eapply star_path_in; [apply fr_init|exact Hp']).
+        apply in_app_or in Hy. destruct Hy as [Hy|[Hy|[]]]; [|exfalso; apply (fr_notin y Hys); auto].
+        destruct (star_path_sound _ _ _ Hp' fr_init Hy) as [u [v [-> [Hu Hs]]]].
+        apply star_app; [exact Hu|exact Hs].
+      + apply star_edge_n in He. destruct He as [He _]. discriminate.
+    - intro H. apply star_complete in H. destruct H as [->|[f [Hf Hp]]].
+      + exists n. split; [apply gp_refl|]. apply in_or_app. right. left. reflexivity.
+      + exists f. split; [|apply in_or_app; left; exact Hf].
+        eapply gp_eps; [apply star_edge_n; auto|exact Hp].
+  Qed.
+End Fresh.
+
+Section FreshThms.
+  Variable A : nfa.
+  Hypothesis Hv : valid_nfa A = true.
+
+  Theorem ops_option_total : exists R, nfa_option A = Ok R /\ valid_nfa R = true.
+  Proof.
+    exists (option_pre A). split; [|apply option_pre_valid; exact Hv].
+    apply check_nfa_ok. apply option_pre_valid. exact Hv.
+  Qed.
+  Theorem ops_option_lang R : nfa_option A = Ok R -> L_nfa R =L l_opt (L_nfa A).
+  Proof. intro H. apply check_nfa_inv in H. destruct H as [-> _]. apply option_pre_lang. exact Hv. Qed.
+
+  Theorem ops_star_total : exists R, nfa_star A = Ok R /\ valid_nfa R = true.
+  Proof.
+    exists (star_pre A). split; [|apply star_pre_valid; exact Hv].
+    apply check_nfa_ok. apply star_pre_valid. exact Hv.
+  Qed.
+  Theorem ops_star_lang R : nfa_star A = Ok R -> L_nfa R =L l_star (L_nfa A).
+  Proof. intro H. apply check_nfa_inv in H. destruct H as [-> _]. apply star_pre_lang. exact Hv. Qed.
+End FreshThms.
